@@ -255,7 +255,10 @@ def conn_window_work(arg):
     import struct as _st
     from cryptography.hazmat.primitives.ciphers.aead import AESGCM
     from mpgameserver.connection import ConnectionBase, ConnectionStatus, PacketHeader, PacketType
-    start, depth = arg
+    start, depth = arg[0], arg[1]
+    # optional third element: non-default timing settings of the RECEIVING connection (the setters of UdpClient /
+    # ServerContext write these attributes); the window rules do not depend on them
+    cfg = dict(arg[2]) if len(arg) > 2 and arg[2] else {}
     KEY = bytes(range(16, 32))
     viols = {}
     MOFFS = [1, 2, 255, 256, 257, 300, -1, -2, -255, -256, -257, -300, 0]
@@ -273,10 +276,14 @@ def conn_window_work(arg):
         c.clock = lambda: 5000.5
         c.session_key_bytes = KEY
         c.status = ConnectionStatus.CONNECTED
+        for k_, v_ in cfg.items():
+            setattr(c, k_, v_)
         return c
 
     def flag(sig, hist, msg):
-        viols.setdefault(("conn-window", sig), [0, {"part": "conn-window", "start": start, "history": list(hist)}, msg])[0] += 1
+        if cfg:
+            sig += " [receiver configured with %s]" % ", ".join("%s=%s" % kv for kv in sorted(cfg.items()))
+        viols.setdefault(("conn-window", sig), [0, {"part": "conn-window", "start": start, "history": list(hist), "cfg": sorted(cfg.items())}, msg])[0] += 1
 
     # depth-first over message-number offset sequences; the connection is rebuilt by replaying the history
     stack = [()]
@@ -596,6 +603,10 @@ def run(tier, seed):
         fold(r[3])
     # part 2b
     cw_jobs = [(start, 3 if tier == "quick" else 4) for start in (1, 300, 65400, 65535)]
+    # the same histories on receivers with non-default timing settings (message timeout, keep-alive interval, send interval)
+    for cfg in ((("outgoing_timeout", 0.25),), (("outgoing_timeout", 0.1), ("send_keep_alive_interval", 0.5)), (("outgoing_timeout", 0.5), ("send_interval", 0.25)),
+                (("outgoing_timeout", 5.0), ("send_keep_alive_interval", 0.02))):
+        cw_jobs += [(start, 3, cfg) for start in ((300, 65535) if tier == "quick" else (1, 300, 65400, 65535))]
     res = core.pmap("checks.c08", "conn_window_work", cw_jobs)
     cw_nodes = sum(r[0] for r in res)
     cw_total = sum(r[1] for r in res)
@@ -643,7 +654,7 @@ def replay_conn_window(witness):
 
 def replay(witness):
     if witness.get("part") == "conn-window":
-        viols = conn_window_work((witness["start"], 4))[2]
+        viols = conn_window_work((witness["start"], 4, tuple(tuple(x) for x in witness.get("cfg", []))))[2]
         return [core.Violation(k[0], k[1], v[1], v[2]) for k, v in viols.items()]
     part = witness.get("part")
     if part == "seqnum":
